@@ -475,6 +475,16 @@ func (c *collection) create(
 		return NewErrDocumentDeleted(primaryKey.DocID)
 	}
 
+	// a document that the requester may not read is reported as not existing, creating it
+	// again must not write to it either
+	hasDoc, err := datastore.CtxMustGetTxn(ctx).Datastore().Has(ctx, primaryKey.Bytes())
+	if err != nil {
+		return err
+	}
+	if hasDoc {
+		return NewErrDocumentAlreadyExists(primaryKey.DocID)
+	}
+
 	// write value object marker if we have an empty doc
 	if len(doc.Values()) == 0 {
 		txn := datastore.CtxMustGetTxn(ctx)
